@@ -146,6 +146,26 @@ func sharedState(a, b *genetics.Genome) error {
 	return nil
 }
 
+// lookupOwn: looking a node up by id in g returns g's own node for its ids and nothing for the ids in others that g
+// does not hold (an id index shared between a copy and its original answers for nodes of the other genome).
+func lookupOwn(g *genetics.Genome, others ...GenomeSpec) error {
+	own := map[int]bool{}
+	for _, n := range g.Nodes {
+		own[n.Id] = true
+		if g.NodeWithId(n.Id) != n {
+			return fmt.Errorf("looking up node id %d does not return the genome's own node", n.Id)
+		}
+	}
+	for _, o := range others {
+		for _, n := range o.Nodes {
+			if !own[n.Id] && g.NodeWithId(n.Id) != nil {
+				return fmt.Errorf("looking up node id %d, which the genome does not hold, returns a node", n.Id)
+			}
+		}
+	}
+	return nil
+}
+
 func specFeatures(s GenomeSpec) (disabled, recurrent, nilTraits int) {
 	for _, g := range s.Genes {
 		if !g.En {
@@ -225,12 +245,15 @@ func CheckC06Dup(c C06Dup, rec *Rec) error {
 			break
 		}
 		rec.Class("op:" + op.Kind)
+		side := "original"
+		if !c.OnCopy {
+			side = "copy"
+		}
 		if d := DiffSpec(before, Snapshot(other)); d != "" {
-			side := "original"
-			if !c.OnCopy {
-				side = "copy"
-			}
 			return fmt.Errorf("after %s (step %d) on the other genome the %s changed: %s", op.Kind, i, side, d)
+		}
+		if err := lookupOwn(other, Snapshot(subject)); err != nil {
+			return fmt.Errorf("after %s (step %d) on the other genome, in the %s: %v", op.Kind, i, side, err)
 		}
 	}
 	return nil
